@@ -1,16 +1,82 @@
 //go:build verif
 
-// Contracts for package messaging, property C11 (comment-only; read by /verif/engine).
+// Contracts for package messaging, property C11 (comment-only; read by /verif/engine, never compiled into a build).
+// C11: ports are bounded FIFO channels with accurate capacity and notifications.
+// View of a port p: in(p) = p.incomingBuf.elements, out(p) = p.outgoingBuf.elements (front at index 0),
+// capacities p.incomingBuf.cap / p.outgoingBuf.cap. The Buffer methods are used through their C14 contracts.
 package messaging
 
-//@ func inSeq(p) = p.incomingBuf.elements
-//@ func outSeq(p) = p.outgoingBuf.elements
-//@ pred portWF(p) = len(p.incomingBuf.elements) <= max(int(p.incomingBuf.cap), 0) && len(p.outgoingBuf.elements) <= max(int(p.outgoingBuf.cap), 0)
+// ---- notification counters (ghost): incremented ONLY by the interface contracts below ----
+// nRecv/nFree: NotifyRecv/NotifyPortFree calls received by owner components; nSend/nAvail: NotifySend/NotifyAvailable
+// calls received by connections. recvPort/freePort/availPort: the port handed over by the most recent such call.
+//@ ghost var nRecv int
+//@ ghost var nFree int
+//@ ghost var nSend int
+//@ ghost var nAvail int
+//@ ghost var recvPort int
+//@ ghost var freePort int
+//@ ghost var availPort int
 
+// RELY (trusted): the notified party is an arbitrary Component / Connection implementation. It is assumed not to
+// re-enter and modify THIS port (nor anything else the caller reads afterwards) during the notification: the contracts
+// assign only the ghost counters. Invoking a method on a nil interface value panics (nil dereference).
+//@ iface messaging.Component.NotifyRecv(port)
+//@   trusted
+//@   panics typeid(self) == 0
+//@   ensures nRecv == old(nRecv) + 1 && recvPort == ifaceval(port)
+//@   assigns nRecv, recvPort
+//@ iface messaging.Component.NotifyPortFree(port)
+//@   trusted
+//@   panics typeid(self) == 0
+//@   ensures nFree == old(nFree) + 1 && freePort == ifaceval(port)
+//@   assigns nFree, freePort
+//@ iface messaging.Connection.NotifySend()
+//@   trusted
+//@   panics typeid(self) == 0
+//@   ensures nSend == old(nSend) + 1
+//@   assigns nSend
+//@ iface messaging.Connection.NotifyAvailable(port)
+//@   trusted
+//@   panics typeid(self) == 0
+//@   ensures nAvail == old(nAvail) + 1 && availPort == ifaceval(port)
+//@   assigns nAvail, availPort
+//@ iface messaging.Connection.Name()
+//@   trusted
+//@   pure
+//@   panics typeid(self) == 0
+
+// Messages are immutable interface values; Meta() is a pure getter (trusted: any Msg implementation). Its routing fields
+// are functions of the message value.
+//@ ufunc msgSrc(m) int
+//@ ufunc msgDst(m) int
+//@ iface messaging.Msg.Meta()
+//@   trusted
+//@   pure
+//@   panics typeid(self) == 0
+//@   ensures result.Src == msgSrc(self) && result.Dst == msgDst(self)
+
+// ---- the view and its invariant ----
+// sizes never exceed capacity; a nil Msg is not a message (Retrieve*/Peek* use nil for "empty").
+//@ pred portWF(p) = queueing.bufWF(p.incomingBuf) && queueing.bufWF(p.outgoingBuf) && (forall i in 0..len(p.incomingBuf.elements) :: p.incomingBuf.elements[i] != nil) && (forall i in 0..len(p.outgoingBuf.elements) :: p.outgoingBuf.elements[i] != nil)
+// the two buffers do not share a backing array (both nil when new). ASSUMED at Send/Deliver, see the report: the C14
+// contracts of PushTyped/Pop do not say which backing array b.elements has afterwards, so it cannot be re-established.
+//@ pred sep(p) = ref(p.incomingBuf.elements) != ref(p.outgoingBuf.elements) || (len(p.incomingBuf.elements) == 0 && len(p.outgoingBuf.elements) == 0)
+//@ pred cfgSame(p) = p.incomingBuf.cap == old(p.incomingBuf.cap) && p.outgoingBuf.cap == old(p.outgoingBuf.cap) && p.incomingBuf.name == old(p.incomingBuf.name) && p.outgoingBuf.name == old(p.outgoingBuf.name)
+//@ pred inFull(p) = len(p.incomingBuf.elements) > 0 && len(p.incomingBuf.elements) == int(p.incomingBuf.cap)
+//@ pred outFull(p) = len(p.outgoingBuf.elements) > 0 && len(p.outgoingBuf.elements) == int(p.outgoingBuf.cap)
+//@ pred countersSameBut(a, b, c, d) = (a || nRecv == old(nRecv)) && (b || nFree == old(nFree)) && (c || nSend == old(nSend)) && (d || nAvail == old(nAvail))
+
+// ---- pure queries agree with the view ----
 //@ fn (*defaultPort).NumIncoming
 //@   property C11
 //@   label C11.numincoming
 //@   ensures result == len(p.incomingBuf.elements)
+//@   assigns nothing
+
+//@ fn (*defaultPort).NumOutgoing
+//@   property C11
+//@   label C11.numoutgoing
+//@   ensures result == len(p.outgoingBuf.elements)
 //@   assigns nothing
 
 //@ fn (*defaultPort).CanSend
@@ -18,3 +84,183 @@ package messaging
 //@   label C11.cansend
 //@   ensures result <==> len(p.outgoingBuf.elements) < int(p.outgoingBuf.cap)
 //@   assigns nothing
+
+//@ fn (*defaultPort).CanDeliver
+//@   property C11
+//@   label C11.candeliver
+//@   ensures result <==> len(p.incomingBuf.elements) < int(p.incomingBuf.cap)
+//@   assigns nothing
+
+//@ fn (*defaultPort).PeekIncoming
+//@   property C11
+//@   label C11.peekincoming.empty
+//@   ensures len(p.incomingBuf.elements) == 0 ==> result == nil
+//@   label C11.peekincoming.front
+//@   ensures len(p.incomingBuf.elements) > 0 ==> result == p.incomingBuf.elements[0]
+//@   assigns nothing
+
+//@ fn (*defaultPort).PeekOutgoing
+//@   property C11
+//@   label C11.peekoutgoing.empty
+//@   ensures len(p.outgoingBuf.elements) == 0 ==> result == nil
+//@   label C11.peekoutgoing.front
+//@   ensures len(p.outgoingBuf.elements) > 0 ==> result == p.outgoingBuf.elements[0]
+//@   assigns nothing
+
+//@ fn (*defaultPort).Name
+//@   property C11
+//@   ensures result == p.name
+//@   assigns nothing
+
+//@ fn (*defaultPort).AsRemote
+//@   property C11
+//@   ensures result == p.name
+//@   assigns nothing
+
+//@ fn (*defaultPort).Component
+//@   property C11
+//@   ensures result == p.comp
+//@   assigns nothing
+
+//@ fn (*defaultPort).Connection
+//@   property C11
+//@   ensures result == p.conn
+//@   assigns nothing
+
+//@ fn (*defaultPort).SetComponent
+//@   property C11
+//@   label C11.setcomponent
+//@   ensures p.comp == comp
+//@   assigns p.comp
+
+//@ fn (*defaultPort).SetConnection
+//@   property C11
+//@   panics p.conn != nil
+//@   label C11.setconnection
+//@   ensures p.conn == conn
+//@   assigns p.conn
+
+// ---- message validity (Send) ----
+//@ fn dstMustNotBeEmpty
+//@   property C11
+//@   panics port == ""
+//@   assigns nothing
+
+//@ fn srcDstMustNotBeTheSame
+//@   property C11
+//@   panics msg == nil || msgSrc(msg) == msgDst(msg)
+//@   assigns nothing
+
+//@ fn portMustBeMsgSrc
+//@   property C11
+//@   panics any
+//@   assigns nothing
+
+//@ fn (*defaultPort).msgMustBeValid
+//@   property C11
+//@   panics any
+//@   label C11.valid.nonnil
+//@   ensures msg != nil && msgDst(msg) != "" && msgSrc(msg) != msgDst(msg)
+//@   assigns nothing
+
+// ---- Send: append to out, NotifySend exactly when out was empty ----
+//@ fn (*defaultPort).Send
+//@   property C11
+//@   requires portWF(p) && sep(p)
+//@   panics any
+//@   label C11.send.len
+//@   ensures len(p.outgoingBuf.elements) == old(len(p.outgoingBuf.elements)) + 1
+//@   label C11.send.prefix
+//@   ensures forall i in 0..old(len(p.outgoingBuf.elements)) :: p.outgoingBuf.elements[i] == old(p.outgoingBuf.elements[i])
+//@   label C11.send.last
+//@   ensures p.outgoingBuf.elements[old(len(p.outgoingBuf.elements))] == msg
+//@   label C11.send.wf
+//@   ensures portWF(p) && cfgSame(p)
+//@   label C11.send.valid
+//@   ensures msg != nil && msgDst(msg) != "" && msgSrc(msg) != msgDst(msg)
+//@   label C11.send.notfull
+//@   ensures old(len(p.outgoingBuf.elements)) < int(p.outgoingBuf.cap)
+//@   label C11.send.notify
+//@   ensures nSend == old(nSend) + (old(len(p.outgoingBuf.elements)) == 0 ? 1 : 0)
+//@   label C11.send.othercounters
+//@   ensures countersSameBut(false, false, true, false)
+//@   label C11.send.incoming
+//@   ensures unchanged(p.incomingBuf.elements)
+//@   label C11.send.incoming.contents
+//@   ensures forall i in 0..len(p.incomingBuf.elements) :: p.incomingBuf.elements[i] == old(p.incomingBuf.elements[i])
+//@   assigns p.outgoingBuf.elements, elems(p.outgoingBuf.elements), nSend
+
+// ---- Deliver: append to in, NotifyRecv exactly when in was empty (and there is an owner) ----
+//@ fn (*defaultPort).Deliver
+//@   property C11
+//@   requires portWF(p) && sep(p) && msg != nil
+//@   panics len(p.incomingBuf.elements) >= int(p.incomingBuf.cap)
+//@   label C11.deliver.len
+//@   ensures len(p.incomingBuf.elements) == old(len(p.incomingBuf.elements)) + 1
+//@   label C11.deliver.prefix
+//@   ensures forall i in 0..old(len(p.incomingBuf.elements)) :: p.incomingBuf.elements[i] == old(p.incomingBuf.elements[i])
+//@   label C11.deliver.last
+//@   ensures p.incomingBuf.elements[old(len(p.incomingBuf.elements))] == msg
+//@   label C11.deliver.wf
+//@   ensures portWF(p) && cfgSame(p)
+//@   label C11.deliver.notify
+//@   ensures nRecv == old(nRecv) + (old(len(p.incomingBuf.elements)) == 0 && p.comp != nil ? 1 : 0)
+//@   label C11.deliver.notify.port
+//@   ensures old(len(p.incomingBuf.elements)) == 0 && p.comp != nil ==> recvPort == p
+//@   label C11.deliver.othercounters
+//@   ensures countersSameBut(true, false, false, false)
+//@   label C11.deliver.outgoing
+//@   ensures unchanged(p.outgoingBuf.elements)
+//@   label C11.deliver.outgoing.contents
+//@   ensures forall i in 0..len(p.outgoingBuf.elements) :: p.outgoingBuf.elements[i] == old(p.outgoingBuf.elements[i])
+//@   assigns p.incomingBuf.elements, elems(p.incomingBuf.elements), nRecv, recvPort
+
+// ---- RetrieveIncoming: pop the oldest incoming message, NotifyAvailable exactly when in was full ----
+//@ fn (*defaultPort).RetrieveIncoming
+//@   property C11
+//@   requires portWF(p)
+//@   panics inFull(p) && p.conn == nil
+//@   label C11.retrievein.empty
+//@   ensures old(len(p.incomingBuf.elements)) == 0 ==> result == nil && len(p.incomingBuf.elements) == 0
+//@   label C11.retrievein.front
+//@   ensures old(len(p.incomingBuf.elements)) > 0 ==> result == old(p.incomingBuf.elements[0]) && result != nil && len(p.incomingBuf.elements) == old(len(p.incomingBuf.elements)) - 1
+//@   label C11.retrievein.shift
+//@   ensures forall i in 0..len(p.incomingBuf.elements) :: p.incomingBuf.elements[i] == old(p.incomingBuf.elements[i + 1])
+//@   label C11.retrievein.wf
+//@   ensures portWF(p) && cfgSame(p)
+//@   label C11.retrievein.notify
+//@   ensures nAvail == old(nAvail) + (old(inFull(p)) ? 1 : 0)
+//@   label C11.retrievein.notify.port
+//@   ensures old(inFull(p)) ==> availPort == p
+//@   label C11.retrievein.othercounters
+//@   ensures countersSameBut(false, false, false, true)
+//@   assigns p.incomingBuf.elements, nAvail, availPort
+
+// ---- RetrieveOutgoing: pop the oldest outgoing message, NotifyPortFree exactly when out was full ----
+//@ fn (*defaultPort).RetrieveOutgoing
+//@   property C11
+//@   requires portWF(p)
+//@   panics outFull(p) && p.comp == nil
+//@   label C11.retrieveout.empty
+//@   ensures old(len(p.outgoingBuf.elements)) == 0 ==> result == nil && len(p.outgoingBuf.elements) == 0
+//@   label C11.retrieveout.front
+//@   ensures old(len(p.outgoingBuf.elements)) > 0 ==> result == old(p.outgoingBuf.elements[0]) && result != nil && len(p.outgoingBuf.elements) == old(len(p.outgoingBuf.elements)) - 1
+//@   label C11.retrieveout.shift
+//@   ensures forall i in 0..len(p.outgoingBuf.elements) :: p.outgoingBuf.elements[i] == old(p.outgoingBuf.elements[i + 1])
+//@   label C11.retrieveout.wf
+//@   ensures portWF(p) && cfgSame(p)
+//@   label C11.retrieveout.notify
+//@   ensures nFree == old(nFree) + (old(outFull(p)) ? 1 : 0)
+//@   label C11.retrieveout.notify.port
+//@   ensures old(outFull(p)) ==> freePort == p
+//@   label C11.retrieveout.othercounters
+//@   ensures countersSameBut(false, true, false, false)
+//@   assigns p.outgoingBuf.elements, nFree, freePort
+
+// ---- NotifyAvailable (called by the connection): forwarded to the owner as NotifyPortFree ----
+//@ fn (*defaultPort).NotifyAvailable
+//@   property C11
+//@   label C11.notifyavailable
+//@   ensures nFree == old(nFree) + (p.comp != nil ? 1 : 0) && (p.comp != nil ==> freePort == p)
+//@   assigns nFree, freePort
+
